@@ -185,6 +185,24 @@ def run_wrapper_property(prop, tier, seed, a, t0, extra_tasks=None, extra_eviden
 
     results = runner.run_pool(tasks, nproc=a.jobs, hard_s=budget['hard_s'], progress=progress)
     bad_wrappers = {m['wrapper'] for m in validation['mismatches']}
+    native_viol = []
+    seen_nv = set()
+    for m in validation['mismatches']:
+        if (m['wrapper'], m['config']) in seen_nv or len(seen_nv) >= 12 or '_meta' not in m:
+            continue
+        seen_nv.add((m['wrapper'], m['config']))
+        rp = validate.judge_mismatch(prop, m)
+        if rp and rp.get('confirmed'):
+            cfgo = configs.BY_NAME[m['config']]
+            rec = {'kind': 'result', 'desc': 'native build violates the oracle on an input where it also disagrees with the encoded clang IR (compiler-dependent behaviour; found by translator validation)',
+                   'inputs': rp['inputs'], 'rm': rp['rm'], 'replay': rp['path'], 'confirmed': True, 'detail': rp['detail'], 'solver': 'translator-validation',
+                   'wrapper': m['wrapper'], 'config': m['config'], 'configs': [m['config']]}
+            ent = known.match(kf, prop, m['_meta'], cfgo, 'result', rec['desc'])
+            if ent is None:
+                native_viol.append(rec)
+    for m in validation['mismatches']:
+        for k in [k for k in m if k.startswith('_')]:
+            m.pop(k)
     for m in validation['mismatches'][:20]:
         print('ENCODING-MISMATCH (interpreter vs native build, verdicts for this wrapper are not trusted): %s' % m, flush=True)
     for e in validation['errors']:
@@ -194,6 +212,9 @@ def run_wrapper_property(prop, tier, seed, a, t0, extra_tasks=None, extra_eviden
             r['status'] = 'undecided'
             r['detail'] = 'translator validation mismatch: verdict not trusted'
             r['undecided'] = [{'kind': 'all', 'desc': 'translator validation mismatch'}]
+    for rec in native_viol:
+        tasks.append({'meta': {'name': rec['wrapper']}, 'cfg': rec['config'], 'also': [], 'ir_hash': None})
+        results.append({'name': rec['wrapper'], 'cfg': rec['config'], 'status': 'violation', 'violations': [rec], 'obligations': 0, 'time': 0.0})
     ev = dict(extra_evidence or {})
     ev['translator_validation'] = {'cases_compared': validation['cases'], 'skipped_ub_inputs': validation['skipped'], 'mismatches': validation['mismatches'][:50],
                                    'errors': validation['errors'], 'wall_s': round(validation['wall_s'], 1),
